@@ -782,6 +782,20 @@ fn dedup_sweep() {
             let id3 = fa(&mut b2, f, u);
             if id3 != id1 { println!("MISMATCH {} requested again after new_from_module: id {} (first {})", la, id3, id1); }
         }
+        // continuation: ids reserved but never defined are below the bound; the continued builder starts AT the bound
+        {
+            let mut b = Builder::new();
+            let f = b.type_float(32, None);
+            let u = b.type_int(32, 0);
+            let _ = fa(&mut b, f, u);
+            let r1 = b.id();
+            let r2 = b.id();
+            let m = b.module();
+            let bound = m.header.as_ref().unwrap().bound;
+            let mut b2 = Builder::new_from_module(m);
+            let n = b2.id();
+            if bound != r2 + 1 || n != bound || n <= r1 { println!("MISMATCH continuation after {}: reserved ids {} {}, bound {}, first id of the continued builder {}", la, r1, r2, bound, n); }
+        }
         // explicit id: always appends, carries the id
         let mut b = Builder::new();
         let f = b.type_float(32, None);
